@@ -12,6 +12,7 @@
 //	  basebig <splits> <n>                       one content of n bytes (pattern) written and read back
 //	  kind    <type> <command> <event> <success> dispatch of DecodeProtocolMessage (strings as hex, success = t/f/-)
 //	  msg     <seed> <splits> <bufsize> <count> <GoType|*>   reflection-generated messages written and read back
+//	  srv     <chunking> <timeout_ms> <cmd> ...  requests through the real server loop of internal/dap (see server.go)
 //	  obs     <name>                             observations at excluded points
 package main
 
@@ -567,6 +568,10 @@ func main() {
 		genLean()
 		return
 	}
+	if len(os.Args) > 2 && os.Args[1] == "srvchild" {
+		srvChild(os.Args[2:])
+		return
+	}
 	regs := registered()
 	byGo := map[string]regType{"ErrorResponse": {"response", "", "ErrorResponse"}}
 	for _, r := range regs {
@@ -679,6 +684,11 @@ func main() {
 				msgs = append(msgs, g.message(rt))
 			}
 			return roundTrip(msgs, splits, bufsize)
+		case "srv":
+			if len(f) < 4 {
+				return "bad-op"
+			}
+			return srvParent(f)
 		case "obs":
 			return observe(f[1], byGo)
 		}
